@@ -42,8 +42,11 @@ def canonical_ode(path: Path):
         if not p.exists():
             continue
         stm = cparse.assignments(p.read_text(), r"(?:ydot\[[^\]]*\]|IJth\([^)]*\)|data\[\d+\]|j\(\s*\d+\s*,\s*\d+\s*\))")
+        ws = lambda x: None if x is None else "".join(x.split())
+        # rate statements (the odeint back-end keeps them in the same file): text with blanks removed, guards included
+        rates = [(ws(l), ws(r), ws(c)) for l, r, c in cparse.guarded_assignments(p.read_text(), r"k[hc]?\[\s*\d+\s*\]")]
         try:
-            out[f] = hashlib.sha256(json.dumps(sorted((l, poly_of_text(r).canon()) for l, r, _ in stm)).encode()).hexdigest()[:16]
+            out[f] = hashlib.sha256(json.dumps([sorted((l, poly_of_text(r).canon()) for l, r, _ in stm), rates]).encode()).hexdigest()[:16]
         except Exception as e:
             out[f] = "unparsed:" + type(e).__name__
     return out
@@ -103,6 +106,15 @@ def main():
                 d = root / f"b{n}"
                 d.mkdir()
                 nets[step["id"]] = build(step["desc"], d)
+            elif op == "build_may_fail":
+                # a network whose construction is expected to be refused part-way (the caller carries on)
+                d = root / f"b{n}"
+                d.mkdir()
+                try:
+                    nets[step["id"]] = build(step["desc"], d)
+                    out.append({"tag": step.get("tag"), "hash": "built"})
+                except Exception as e:
+                    out.append({"tag": step.get("tag"), "hash": "refused: " + type(e).__name__})
             elif op == "add_line":
                 nets[step["id"]].add_reaction((step["line"], step["fmt"]))
             elif op == "query":
